@@ -202,7 +202,7 @@ func guardsOf(b *ssa.BasicBlock) []guard {
 			continue
 		}
 		for i, s := range id.Succs {
-			if s == d && len(s.Preds) == 1 && id.Succs[0] != id.Succs[1] {
+			if s == d && onlyEntryEdge(s, id) && id.Succs[0] != id.Succs[1] {
 				g := guard{Cond: iff.Cond, Truth: i == 0, If: iff}
 				more := boolPhiGuards(g, 0)
 				if len(more) > 0 {
@@ -576,4 +576,20 @@ func reachPhiAware(start, enteredFrom *ssa.BasicBlock, target, avoid instrPred) 
 		return nil, false
 	}
 	return walk(start, enteredFrom, map[*ssa.Phi]bool{})
+}
+
+// onlyEntryEdge: every way into block s other than the edge from `from` is a back edge of a loop headed by s (its source
+// is dominated by s): whenever control is in s, the branch in `from` was last taken towards s.
+func onlyEntryEdge(s, from *ssa.BasicBlock) bool {
+	n := 0
+	for _, p := range s.Preds {
+		if p == from {
+			n++
+			continue
+		}
+		if !s.Dominates(p) {
+			return false
+		}
+	}
+	return n == 1
 }
